@@ -70,3 +70,23 @@ run benign4-C18 C18 C07 C08
 run benign4-C19 C19
 run benign4-C20 C20
 echo ALLDONE
+run benign5-C01 C01 C02 C03 C15
+run benign5-C02 C02 C03 C01 C15
+run benign5-C03 C03 C01 C02 C15
+run benign5-C04 C04 C05 C12
+run benign5-C05 C05 C04 C12
+run benign5-C06 C06 C07 C08 C18
+run benign5-C07 C07 C06 C08 C18
+run benign5-C08 C08 C06 C07 C18
+run benign5-C09 C09 C10
+run benign5-C10 C10 C09
+run benign5-C11 C11 C02 C04
+run benign5-C12 C12 C04 C05
+run benign5-C13 C13
+run benign5-C14 C14 C15
+run benign5-C15 C15 C02 C03 C14
+run benign5-C16 C16
+run benign5-C17 C17
+run benign5-C18 C18 C07 C08
+run benign5-C19 C19
+run benign5-C20 C20
